@@ -116,7 +116,7 @@ def gen_eph_history(ch, nsteps):
     steps = []
     tags = set()
     for _ in range(nsteps):
-        kind = ch.pick(["new", "new", "eph", "eph", "drop", "drop", "copy", "gc", "gc", "resurrect", "dropeph", "churn"])
+        kind = ch.pick(["new", "new", "eph", "eph", "drop", "drop", "copy", "gc", "gc", "resurrect", "dropeph", "churn", "holes"])
         paths = m.paths()
         if kind == "new":
             r = ch.n(NSLOT)
@@ -156,7 +156,12 @@ def gen_eph_history(ch, nsteps):
                 tags.add("value-refers-to-own-key")
             if not paths[k].startswith("(at-root"):
                 tags.add("key-held-through-a-value")
-            steps.append(("(begin (vector-set! ephs %d (make-ephemeron %s (list %s))) #t)" % (s, paths[k], " ".join(val_text)), "eph", None))
+            if val_text and ch.p(0.35):
+                # the value is a large vector (allocated high in the heap), the ephemeron itself a small object
+                tags.add("big-value")
+                steps.append(("(begin (vector-set! ephs %d (make-ephemeron %s (big-value (list %s)))) #t)" % (s, paths[k], " ".join(val_text)), "eph", None))
+            else:
+                steps.append(("(begin (vector-set! ephs %d (make-ephemeron %s (list %s))) #t)" % (s, paths[k], " ".join(val_text)), "eph", None))
             m.ephs[s] = {"key": k, "val": val_ids, "ever_dead": False, "must_break": False, "broken": False}
         elif kind == "gc":
             steps.append(("(begin (verif-gc) #t)", "gc", None))
@@ -179,6 +184,8 @@ def gen_eph_history(ch, nsteps):
             s = ch.n(NSLOT)
             m.ephs[s] = None
             steps.append(("(begin (vector-set! ephs %d #f) #t)" % s, "dropeph", s))
+        elif kind == "holes":
+            steps.append(("(begin (junk-pairs %d) (verif-gc) #t)" % ch.pick([50, 500, 5000]), "gc", None))
         elif kind == "churn":
             n = ch.pick([10, 1000, 100000])
             steps.append(("(begin (make-vector %d 0) (make-string %d #\\a) #t)" % (n, n), "churn", None))
@@ -235,11 +242,13 @@ def judge_eph(steps, body):
             r = int(mm.group(1))
             m.roots[r] = m.roots[int(mm.group(3))] if mm.group(2) == "at-root" else m.ephs[int(mm.group(3))]["val"][int(mm.group(4))]
         elif kind == "eph":
-            mm = re.match(r"\(begin \(vector-set! ephs (\d+) \(make-ephemeron \((at-root|at-eph) (\d+)(?: (\d+))?\) \(list(.*)\)\)\) #t\)$", text)
+            mm = re.match(r"\(begin \(vector-set! ephs (\d+) \(make-ephemeron \((at-root|at-eph) (\d+)(?: (\d+))?\) \((?:big-value \()?list", text)
+            tail = ")))) #t)" if "(big-value (list" in text else "))) #t)"
+            items_text = text[mm.end():len(text) - len(tail)]
             s = int(mm.group(1))
             key = m.roots[int(mm.group(3))] if mm.group(2) == "at-root" else m.ephs[int(mm.group(3))]["val"][int(mm.group(4))]
             vals = []
-            for vm in re.finditer(r"\((at-root|at-eph|make-obj) (\d+)(?: (\d+))?\)", mm.group(5)):
+            for vm in re.finditer(r"\((at-root|at-eph|make-obj) (\d+)(?: (\d+))?\)", items_text):
                 if vm.group(1) == "at-root":
                     vals.append(m.roots[int(vm.group(2))])
                 elif vm.group(1) == "at-eph":
@@ -333,7 +342,22 @@ def gen_port_history(ch, nsteps):
     tags = set()
     nid = [0]
     for _ in range(nsteps):
-        kind = ch.pick(["open-in", "open-in", "open-bin", "open-out", "open-fd", "alias", "close", "drop", "drop", "gc", "gc", "read", "count", "churn"])
+        kind = ch.pick(["open-in", "open-in", "open-bin", "open-out", "open-fd", "open-pair", "alias", "close", "drop", "drop", "gc", "gc", "read", "count", "churn"])
+        if kind == "open-pair":
+            # two ports on one fileno object: the descriptor belongs to both, it stays open until the last of them is
+            # closed or collected (reads are not modelled for these: the ports share the file offset)
+            s1, s2 = ch.n(NSLOT), ch.n(NSLOT)
+            if s1 == s2:
+                continue
+            j = ch.n(4)
+            nid[0] += 2
+            fid = "F%d" % nid[0]
+            ports[nid[0] - 1] = {"kind": "in", "file": j, "pos": 0, "closed": False, "fileno": fid, "noread": True}
+            ports[nid[0]] = {"kind": "in", "file": j, "pos": 0, "closed": False, "fileno": fid, "noread": True}
+            slots[s1], slots[s2] = nid[0] - 1, nid[0]
+            steps.append(("(let ((fn (open \"f%d\" open/read))) (vector-set! ports %d (open-input-file-descriptor fn)) (vector-set! ports %d (open-input-file-descriptor fn)) #t)" % (j, s1, s2), "open", None))
+            tags.add("shared-fileno")
+            continue
         if kind in ("open-in", "open-bin", "open-fd"):
             s = ch.n(NSLOT)
             j = ch.n(4)
@@ -376,7 +400,7 @@ def gen_port_history(ch, nsteps):
             if pid is None:
                 continue
             p = ports[pid]
-            if p["closed"]:
+            if p["closed"] or p.get("noread"):
                 continue
             if p["kind"] == "in":
                 content = "".join(chr(ord("a") + (p["file"] * 7 + k) % 26) for k in range(200))
@@ -388,7 +412,7 @@ def gen_port_history(ch, nsteps):
         elif kind == "count":
             # an explicit collection first: afterwards exactly the live unclosed ports hold descriptors
             live = set(x for x in slots if x is not None)
-            n = sum(1 for x in live if not ports[x]["closed"])
+            n = len(set(ports[x].get("fileno", x) for x in live if not ports[x]["closed"]))
             steps.append(("(begin (verif-gc) (write (verif-fd-count)) (newline) #t)", "count", n))
             if "dropped-unclosed" in tags:
                 tags.add("count-after-drop")
